@@ -777,15 +777,25 @@ func H_C14_String() {
 	verifReach("end")
 }
 
-func H_C14_Entropy() {
-	lg := Language(verifInt("lg"))
+// verifLangSel: sel in 0..9 = that supported language; otherwise an arbitrary unsupported value.
+func verifLangSel(sel int) Language {
+	if sel >= 0 && sel <= 9 {
+		return Language(sel)
+	}
+	lg := verifInt("lg")
+	verifAssume(lg < 0 || lg > 9)
+	return Language(lg)
+}
+
+func H_C14_Entropy(sel int) {
+	lg := verifLangSel(sel)
 	ent := verifBytesLen("ent", 40)
 	_, _ = NewMnemonicByEntropy(ent, lg)
 	verifReach("end")
 }
 
-func H_C14_New(R int) {
-	lg := Language(verifInt("lg"))
+func H_C14_New(sel int, R int) {
+	lg := verifLangSel(sel)
 	n := verifInt("n")
 	r := &verifReader{stream: verifBytes("s", 36), maxCalls: R}
 	old := {{READER}}
@@ -795,8 +805,8 @@ func H_C14_New(R int) {
 	verifReach("end")
 }
 
-func H_C14_Check(n int) {
-	lg := Language(verifInt("lg"))
+func H_C14_Check(sel int, n int) {
+	lg := verifLangSel(sel)
 	toks := make([]string, n)
 	for i := range toks {
 		toks[i] = verifToken("t"+itoa(i), Language(verifGoldenLang()))
@@ -856,9 +866,14 @@ func verifWarm(l int) {
 	}
 }
 
-func H_C13_entropy(lg Language, L int) {
-	verifWarm(verifIntRange("warm1", -1, 10))
-	verifWarm(verifIntRange("warm2", -1, 10))
+func verifWarmN(W int) {
+	for i := 1; i <= W; i++ {
+		verifWarm(verifIntRange("warm"+itoa(i), -1, 10))
+	}
+}
+
+func H_C13_entropy(lg Language, L int, W int) {
+	verifWarmN(W)
 	ent := verifBytes("ent", L)
 	keep := make([]byte, L)
 	copy(keep, ent)
@@ -876,9 +891,8 @@ func H_C13_entropy(lg Language, L int) {
 	verifReach("end")
 }
 
-func H_C13_check(lg Language, n int) {
-	verifWarm(verifIntRange("warm1", -1, 10))
-	verifWarm(verifIntRange("warm2", -1, 10))
+func H_C13_check(lg Language, n int, W int) {
+	verifWarmN(W)
 	toks := make([]string, n)
 	for i := range toks {
 		toks[i] = verifToken("t"+itoa(i), lg)
@@ -893,13 +907,13 @@ func H_C13_check(lg Language, n int) {
 }
 
 func H_C13_seed() {
-	verifWarm(verifIntRange("warm1", -1, 10))
+	verifWarm(verifIntRange("warm0", -1, 10))
 	m := verifOpaque("m")
 	p := verifOpaque("p")
 	s1 := MnemonicToSeed(m, p)
 	want := verifSeedSpec(verifNFKD(m), "mnemonic"+verifNFKD(p))
 	_ = MnemonicToSeed(verifOpaque("m2"), verifOpaque("p2"))
-	verifWarm(verifIntRange("warm2", -1, 10))
+	verifWarm(verifIntRange("warm9", -1, 10))
 	verifAssert(verifBytesEq(s1, want), "earlier-seed-unaltered-by-later-calls")
 	verifReach("end")
 }
@@ -956,13 +970,13 @@ var verifHarnesses = map[string]func(a []int64){
 	"H_C09_count":       func(a []int64) { H_C09_count(Language(a[0])) },
 	"H_C16":             func(a []int64) { H_C16() },
 	"H_C14_String":      func(a []int64) { H_C14_String() },
-	"H_C14_Entropy":     func(a []int64) { H_C14_Entropy() },
-	"H_C14_New":         func(a []int64) { H_C14_New(int(a[0])) },
-	"H_C14_Check":       func(a []int64) { H_C14_Check(int(a[0])) },
+	"H_C14_Entropy":     func(a []int64) { H_C14_Entropy(int(a[0])) },
+	"H_C14_New":         func(a []int64) { H_C14_New(int(a[0]), int(a[1])) },
+	"H_C14_Check":       func(a []int64) { H_C14_Check(int(a[0]), int(a[1])) },
 	"H_C14_Seed":        func(a []int64) { H_C14_Seed() },
 	"H_C08":             func(a []int64) { H_C08(Language(a[0])) },
-	"H_C13_entropy":     func(a []int64) { H_C13_entropy(Language(a[0]), int(a[1])) },
-	"H_C13_check":       func(a []int64) { H_C13_check(Language(a[0]), int(a[1])) },
+	"H_C13_entropy":     func(a []int64) { H_C13_entropy(Language(a[0]), int(a[1]), int(a[2])) },
+	"H_C13_check":       func(a []int64) { H_C13_check(Language(a[0]), int(a[1]), int(a[2])) },
 	"H_C13_seed":        func(a []int64) { H_C13_seed() },
 	"H_C12_op":          func(a []int64) { H_C12_op(int(a[0]), Language(a[1])) },
 }
